@@ -64,7 +64,7 @@ Definition gen_world : world :=
      w_needs := fun x t => negb (is_checker ck x) || needed ck x t |}.
 
 (* every world of the model is one: take every handler for a TimingChecker answering w_needs *)
-Lemma every_world_is_a_gen_world (w : world) :
+Theorem every_world_is_a_gen_world (w : world) :
   exists ck', forall x t, w_needs w x t = (negb (is_checker ck' x) || needed ck' x t).
 Proof. exists {| is_checker := fun _ => true; needed := w_needs w |}. reflexivity. Qed.
 
@@ -327,3 +327,18 @@ Proof.
 Qed.
 
 End Agree.
+
+(* non-vacuity: the generated functions compute; a handler that is a TimingChecker not asking for the
+   timing is filtered, the manager's own handlers come before the global ones, a designated option
+   is attached once although its key appears behind a path into a sub graph *)
+Example gen_code_computes :
+  let ck := {| is_checker := fun x => N.eqb x 2; needed := fun _ t => timing_eqb t TEnd |} in
+  let m := {| m_global := [9%N]; m_handlers := {| arr := 0; off := 0; len := 3; cap := 4 |}; m_info := 7%N |} in
+  snd (G.On pol_double ck [[1; 2; 3; 0]%N] (Some m) TStart) = Some (7%N, [1; 3; 9]%N) /\
+  snd (G.On pol_double ck [[1; 2; 3; 0]%N] (Some m) TEnd) = Some (7%N, [1; 2; 3; 9]%N) /\
+  G.On pol_double ck [] None TStart = ([], None) /\
+  (let r := G.initNodeCallbacks pol_double [] [] None 5%N 8%N
+              [([4%N], [[6; 1]; [5]]%N); ([6%N], [[6]]%N); ([7%N], []); ([8%N], [[5]; [5]]%N)] in
+   match snd r with Some m' => read (fst r) (m_handlers m') | None => [] end = [4; 8]%N).
+Proof. vm_compute. repeat split; reflexivity. Qed.
+
